@@ -30,6 +30,10 @@ type Sub struct {
 	Race bool
 	// Parallel: the sub uses goroutine parallelism itself (no GOMAXPROCS=1).
 	Parallel bool
+	// CrashIsViolation: a Go runtime fatal error in the shard process (stack overflow, concurrent
+	// map access, ...) is a violation of the property, attributed to the last input the shard
+	// announced on stderr with a "CURRENT-INPUT: " line - not a harness fault.
+	CrashIsViolation bool
 }
 
 // Check is everything registered for one property.
